@@ -300,6 +300,8 @@ def main():
     print("TOK_ERANGE %d TOK_ZERO %d TOK_ULLPOS %d" % (uf, 1 if zf else 0, 1 if pu else 0))
     print("INC_BLANK %d NS_RULE %d REPRZ %d" % (1 if blank else 0, 1 if nsrule else 0, 1 if reprz else 0))
     fl_ = re.sub(r"\s+", " ", strip_comments(open(os.path.join(REPO, "src", "flush.c")).read()))
+    print("NAME_FLAG %d" % (1 if "(flags & GD_WFC_NAME) ? GD_CO_NAME : GD_CO_REPR" in fl_ else 0))
+    print("INHERIT_RULE %d" % (1 if "D->fragment[i].byte_sex != P->byte_sex" in fl_ else 0))
     print("STRIP_GUARD %d" % (1 if "ptr = _GD_StripCode(D, me, code, strip_flags); if (ptr == NULL)" in fl_ else 0))
     print("FLUSH_DIGITS %d" % (min(wc) if wc else (min(d for *_, d in fs) if fs else 0)))
     print("flush sites: %d  ascii sites: %d  writer_min_version: %d  parser_gate: %d" % (len(fs), len(asc), len(wmin), len(gates)))
